@@ -277,6 +277,42 @@ pub unsafe extern "C" fn openat64(dirfd: c_int, path: *const std::os::raw::c_cha
     sim_open(dirfd as c_long, path, flags, mode)
 }
 
+/// Fifth seam: the CPU set of the calling thread (`std::thread::available_parallelism`, which a
+/// change might use as a default thread count). For simulated caller threads the mask holds
+/// 1..=16 CPUs as a function of the environment epoch.
+#[no_mangle]
+pub unsafe extern "C" fn sched_getaffinity(pid: c_int, size: usize, mask: *mut u8) -> c_int {
+    let env = active();
+    if !env.is_null() && !mask.is_null() && size > 0 {
+        let mut st = (*env).lock().unwrap_or_else(|e| e.into_inner());
+        st.env_reads_total += 1;
+        st.env_names.insert("<sched_getaffinity>".into());
+        let n = 1 + (crate::rng::mix(&[0xC9u64, st.env_seed, st.env_epoch]) % 16) as usize;
+        let bytes = std::slice::from_raw_parts_mut(mask, size);
+        for b in bytes.iter_mut() {
+            *b = 0;
+        }
+        for cpu in 0..n.min(size * 8) {
+            bytes[cpu / 8] |= 1 << (cpu % 8);
+        }
+        return 0;
+    }
+    let r = syscall(204, pid as c_long, size as c_long, mask);
+    if r < 0 {
+        *__errno_location() = (-r) as c_int;
+        return -1;
+    }
+    // the raw syscall returns the number of bytes written; libc's wrapper zero-fills the rest
+    let written = r as usize;
+    if written < size {
+        let bytes = std::slice::from_raw_parts_mut(mask, size);
+        for b in bytes[written..].iter_mut() {
+            *b = 0;
+        }
+    }
+    0
+}
+
 /// Self-test used by `fpsim selfcheck`: both seams must be live in this binary.
 pub fn seams_are_live() -> Result<(), String> {
     let env = new_env(CLOCK_FLOOR + 12345);
